@@ -439,6 +439,23 @@ type vf13Rec struct {
 }
 
 func vf13Snapshots(p *Core) (map[string]string, map[string][]string) {
+	// the HLS server registers itself with the path manager from its own goroutine (SetHLSServer goes
+	// through the manager loop): wait for that hand-shake before looking at references
+	if !vf13Comp(p, "hlsServer").IsNil() && !vf13Comp(p, "pathManager").IsNil() {
+		for try := 0; try < 400; try++ {
+			_, refs := vf13Snapshot(p, "pathManager")
+			found := false
+			for _, x := range refs {
+				if x == "hlsServer" {
+					found = true
+				}
+			}
+			if found {
+				break
+			}
+			time.Sleep(5 * time.Millisecond)
+		}
+	}
 	s := map[string]string{}
 	r := map[string][]string{}
 	for _, c := range vf13Comps {
@@ -452,6 +469,12 @@ func vf13Snapshots(p *Core) (map[string]string, map[string][]string) {
 
 // one experiment: old conf -> new conf
 func vf13Experiment(base *conf.Conf, newConf *conf.Conf, rec *vf13Rec) {
+	vf13ExperimentVia(base, nil, newConf, rec)
+}
+
+// vf13ExperimentVia: live Core started with base, reloaded to via (if not nil), then to newConf; compared with a
+// fresh Core of newConf. With via != nil and newConf == base this is the chain base -> changed -> base.
+func vf13ExperimentVia(base *conf.Conf, via *conf.Conf, newConf *conf.Conf, rec *vf13Rec) {
 	freshOld, err := vf13NewCore(base.Clone())
 	if err != nil {
 		rec.Skipped = "fresh core with the old configuration failed: " + err.Error()
@@ -482,6 +505,18 @@ func vf13Experiment(base *conf.Conf, newConf *conf.Conf, rec *vf13Rec) {
 		keep = append(keep, vf13Comp(live, c))
 	}
 	defer runtime.KeepAlive(&keep)
+	idsMid := map[string]uintptr{}
+	if via != nil {
+		if err := live.reloadConf(via.Clone()); err != nil {
+			rec.Skipped = "first reload of the chain failed: " + err.Error()
+			vf13Close(live)
+			return
+		}
+		for _, c := range vf13Comps {
+			idsMid[c] = vf13ID(live, c)
+			keep = append(keep, vf13Comp(live, c))
+		}
+	}
 	if err := live.reloadConf(newConf.Clone()); err != nil {
 		rec.Skipped = "reload failed: " + err.Error()
 		vf13Close(live)
@@ -489,7 +524,7 @@ func vf13Experiment(base *conf.Conf, newConf *conf.Conf, rec *vf13Rec) {
 	}
 	// in-place reloads (path configurations, internal users) are handed to the services' own loops:
 	// give them a moment to apply what they were given
-	snapLive, _ := vf13Snapshots(live)
+	snapLive, refsLive := vf13Snapshots(live)
 	for try := 0; try < 200; try++ {
 		same := true
 		for _, c := range vf13Comps {
@@ -501,7 +536,7 @@ func vf13Experiment(base *conf.Conf, newConf *conf.Conf, rec *vf13Rec) {
 			break
 		}
 		time.Sleep(5 * time.Millisecond)
-		snapLive, _ = vf13Snapshots(live)
+		snapLive, refsLive = vf13Snapshots(live)
 	}
 	rec.Differs, rec.Recreated, rec.Stale, rec.StaleRefs, rec.Present, rec.PresentL = []string{}, []string{}, []string{}, []string{}, []string{}, []string{}
 	rec.RefsNew = refsNew
@@ -529,6 +564,12 @@ func vf13Experiment(base *conf.Conf, newConf *conf.Conf, rec *vf13Rec) {
 			rec.Stale = append(rec.Stale, c)
 			rec.Detail[c] = "live: " + vf13Short(snapLive[c], snapNew[c]) + " fresh: " + vf13Short(snapNew[c], snapLive[c])
 		}
+		// a live component references exactly the components its freshly built counterpart references
+		// (a component that came to life in this reload must be known to those that use it: nil is stale too)
+		if snapLive[c] != "absent" && snapNew[c] != "absent" && strings.Join(refsLive[c], ",") != strings.Join(refsNew[c], ",") {
+			rec.StaleRefs = append(rec.StaleRefs, c)
+			rec.Detail[c+"->refs"] = "references [" + strings.Join(refsLive[c], ",") + "], a fresh Core's references [" + strings.Join(refsNew[c], ",") + "]"
+		}
 		// every reference of a live component must point to a live component instance
 		v := vf13Comp(live, c)
 		if !v.IsNil() {
@@ -545,7 +586,7 @@ func vf13Experiment(base *conf.Conf, newConf *conf.Conf, rec *vf13Rec) {
 				id := x.Pointer()
 				// does it point to an instance that was a component before the reload and is not one any more?
 				for _, d := range vf13Comps {
-					if idsBefore[d] != 0 && idsBefore[d] == id && !liveIDs[id] {
+					if ((idsBefore[d] != 0 && idsBefore[d] == id) || (idsMid[d] != 0 && idsMid[d] == id)) && !liveIDs[id] {
 						rec.StaleRefs = append(rec.StaleRefs, c)
 						rec.Detail[c+"->"+d] = "references the closed instance"
 					}
@@ -663,6 +704,12 @@ func TestVerif_C13_Reload(t *testing.T) {
 			rev := &vf13Rec{Kind: "param", Param: tag, Params: []string{tag}, Dir: "rev"}
 			vf13Experiment(nc, base, rev)
 			out.Emit(rev)
+			// and the chain base -> changed -> base on ONE live Core (state left behind by the first reload)
+			if chains := verifrt.Param("CHAINS", 0); chains < 0 || rnd.IntN(100) < chains {
+				ch := &vf13Rec{Kind: "param", Param: tag, Params: []string{tag}, Dir: "chain"}
+				vf13ExperimentVia(base, nc, base, ch)
+				out.Emit(ch)
+			}
 		}
 	}
 	// the set of path configurations, alone and together with each global parameter of PATHPAIRS
